@@ -173,6 +173,10 @@ def distrHookWithdraw (v : ValId) : M Unit := do
   let _ ← withdrawRewards v
   pure ()
 
+/-- `sdk.DefaultPowerReduction` and the largest consensus power -/
+def powerReduction : Int := 1000000
+def maxInt64 : Int := 9223372036854775807
+
 /-- `stakingKeeper.Delegate(module, amt, Unbonded, snapshot, subtractAccount = true)` -/
 def stakingDelegate (v : ValId) (snap : SVal) (amt : Int) : M Unit := do
   guardE (snap.tokens = 0 ∧ snap.delShares > 0) "invalid_ex_rate"
@@ -186,6 +190,13 @@ def stakingDelegate (v : ValId) (snap : SVal) (amt : Int) : M Unit := do
   let issued : Dec := if snap.delShares = 0 then ofInt amt else quoInt (mulInt snap.delShares amt) snap.tokens
   let w ← getW
   let live := (getSVal w v).getD snap
+  -- `AddValidatorTokensAndShares`: the validator is stored, then its power-index key is built, and
+  -- `TokensToConsensusPower` panics ("Int64() out of bound") when tokens / 10^6 does not fit an int64;
+  -- the delegation object is not written in that case
+  if (snap.tokens + amt).tdiv powerReduction > maxInt64 then do
+    setSVal v { snap with tokens := snap.tokens + amt, delShares := snap.delShares + issued, modShares := live.modShares }
+    panicE "power_overflow"
+  else do
   setSVal v { snap with tokens := snap.tokens + amt, delShares := snap.delShares + issued,
                         modShares := some ((live.modShares.getD 0) + issued) }
   -- AfterDelegationModified → alliance hook
